@@ -304,11 +304,13 @@ func ZZHarnessP2P() {
 	// topic
 	right := commons.ValidatorTopicID(pk)[0]
 	topic := commons.GetTopicFullName(right)
-	switch zzChoose("topic", 3) {
+	switch zzChoose("topic", 4) {
 	case 1:
 		topic = commons.GetTopicFullName(right + "1")
 	case 2:
 		topic = right
+	case 3:
+		topic = commons.GetTopicFullName("1" + right) // another subnet whose decimal name ends with the right one's digits
 	}
 	rightTopic := commons.GetTopicBaseName(topic) == right
 	pmsg := &pubsub.Message{Message: &pspb.Message{Data: pdata, Topic: &topic}}
